@@ -185,6 +185,12 @@ impl Sess {
             Sess::Ot(s, ..) => bytemuck::bytes_of(&*s.state)[32..96].to_vec(),
         }
     }
+    pub fn send_result(&self) -> Result<(Vec<u8>, [Scalar; 2]), String> {
+        match self {
+            Sess::Ext(s) => s.send.clone(),
+            Sess::Ot(s, ..) => s.send.clone(),
+        }
+    }
     pub fn honest(&self) -> (Vec<u8>, [Scalar; 2]) {
         match self {
             Sess::Ext(s) => s.send.clone().expect("honest sender"),
@@ -597,6 +603,35 @@ fn variant_run(seed: u64, ot: bool, thorough: bool, threads: usize, rep: &mut Re
         }
     };
     log.push(format!("{} honest={}", s.describe(), real_recv_str(&honest)));
+    // degenerate honest sessions: sender input (0, 0) with an all-zero eta draw (the honest check value eta is then 32 zero
+    // bytes), and input (q-1, 1): the honest message must be accepted and the relation must hold
+    for (tag, zero) in [("zero-input-zero-eta", true), ("boundary-input", false)] {
+        let sidz: [u8; 32] = r.gen();
+        let sz = if ot {
+            let a = if zero { [Scalar::ZERO, Scalar::ZERO] } else { [-Scalar::ONE, Scalar::ONE] };
+            let name = format!("c02-{tag}{}", if zero { "#zero64@32768" } else { "" });
+            let s2 = ot_session(seed, &name, sidz, a);
+            let (_, ra, rb, _, _) = s2.real_new();
+            Sess::Ot(Box::new(s2), ra, rb)
+        } else {
+            let mut rr = rng(seed, &format!("c02-ext-{tag}"));
+            let mut new_tape = vec![0u8; 80];
+            rr.fill_bytes(&mut new_tape);
+            let mut eta_tape = vec![0u8; 64];
+            if !zero { rr.fill_bytes(&mut eta_tape); }
+            let a = if zero { [Scalar::ZERO, Scalar::ZERO] } else { [-Scalar::ONE, Scalar::ONE] };
+            Sess::Ext(ext_session(&format!("c02-{tag}"), sidz, make_seeds(seed, "c02-seeds", false), vec![0u8; R1_BYTES], new_tape, a, eta_tape))
+        };
+        rep.n_eval += 1;
+        rep.kind(&format!("{vname}:honest-{tag}"));
+        match &sz.send_result() {
+            Ok((m, cz)) => match sz.real_recv(m) {
+                Ok(d) if relation_holds(&sz.a(), &sz.b(), cz, &d) => {}
+                other => rep.oracle.push(format!("honest round-two message ({tag}) not accepted with correct shares: {} -- {}", real_recv_str(&other), sz.describe())),
+            },
+            Err(e) => rep.oracle.push(format!("honest sender failed ({tag}): {e} -- {}", sz.describe())),
+        }
+    }
 
     // ---- fault enumeration against the real receiver
     let mut probes = field_bit_flips(&s, &mut r, 64);
